@@ -741,8 +741,15 @@ def _real_div(num: Poly, den: Poly) -> Poly:
 # Python floats do; torch tensors return inf/nan instead and keep this off).
 STRICT_SCALAR_DIV = False
 
+# When a list: every scalar division appends its divisor.  Used for AD-safety conditions (C30): under
+# reverse-mode differentiation a division whose divisor is zero poisons the gradient (0/0 = nan) even
+# if its forward value is later discarded by torch.where.
+DIV_LOG = None
+
 
 def sc_div(a: Sc, b: Sc) -> Sc:
+    if DIV_LOG is not None:
+        DIV_LOG.append(b)
     if STRICT_SCALAR_DIV and not b.is_const():
         if bool(b == 0):
             raise ZeroDivisionError("float division by zero")
